@@ -228,5 +228,32 @@ def run(chk, tier):
                     chk.expect(is_write_impl, "no-bare-write", short, f"write@{H.show(x[4], 2) if H.kind(x) == 'mcall' else '?'}", "write_all / write! (or an impl Write forwarding the count)",
                                f"bare Write::write at line {x[1]}", loc=f"{h['loc']['f']}:{x[1]}")
     chk.floor("no-bare-write", "HIR bodies scanned", n_scanned, 3000)
+    # ---------- rule 5: the token readers end the stream (None) on an error only when it is the end of the input
+    chk.rule("reader-errors-surface", "DataSetReader::next and LazyDataSetReader::advance: an `Err(..)` arm either yields / returns the error, or ends the token stream "
+             "only under a guard that compares the kind of the I/O error bound by that arm's pattern with ErrorKind::UnexpectedEof")
+    dp = fx.crate("dicom_parser")
+    n_arms = 0
+    for h in dp["hir"]:
+        if "{closure" in h["path"] or not (re.search(r"dataset::read::DataSetReader<.*Iterator>::next$", h["path"]) or re.search(r"lazy_read::LazyDataSetReader::<\w+>::advance$", h["path"])):
+            continue
+        short = "LazyDataSetReader::advance" if "lazy_read" in h["path"] else "DataSetReader::next"
+        ordn = 0
+        for m in H.walk(h["body"]):
+            if H.kind(m) != "match" or (len(m) > 5 and m[5] in ("TryDesugar", "AwaitDesugar", "ForLoopDesugar")):
+                continue
+            for p, g, b, ln in H.match_arms(m):
+                sp = H.show_pat(p)
+                if not (sp.startswith("Err(") or sp.startswith("core::result::Result::Err(")):
+                    continue
+                ordn += 1
+                n_arms += 1
+                txt = H.show(b, 9)
+                yields_err = "Result::Err(" in txt
+                binds = H.pat_bindings(p)
+                gtxt = H.show(g, 9) if g is not None else ""
+                eof_guard = any(re.search(rf"\({re.escape(v)}\.kind\(\) Eq (core|std)::io::(error::)?ErrorKind::UnexpectedEof\)", gtxt) for v in binds)
+                chk.expect(yields_err or eof_guard, "reader-errors-surface", short, f"Err arm #{ordn} ({sp[:60]})", "yields the error, or guarded by <bound io error>.kind() == UnexpectedEof",
+                           {"guard": gtxt[:160], "body": txt[:120]}, loc=f"{h['loc']['f']}:{ln}")
+    chk.floor("reader-errors-surface", "Err arms of the two token readers", n_arms, 14)
     chk.undecided.append("which operation fails at which point (fault enumeration); errors swallowed inside third-party crates; flate2 writes its final block on drop "
                          "(DataRWAdapter returns Box<dyn Write> and offers no finish): design limitation recorded in DESIGN.md")
